@@ -884,6 +884,12 @@ def repeat(a, repeats, axis=None):
     elif repeats == 1:
         return a
 
+    if a.shape[axis] == 0:
+        return a
+    if 0 in a.chunks[axis]:
+        # the slabs below must consist of exactly one chunk each
+        a = a.rechunk({axis: tuple(c for c in a.chunks[axis] if c)})
+
     cchunks = cached_cumsum(a.chunks[axis], initial_zero=True)
     slices = []
     for c_start, c_stop in sliding_window(2, cchunks):
